@@ -18,6 +18,7 @@ import (
 	"encoding/json"
 	"fmt"
 	"reflect"
+	"runtime"
 	"strconv"
 	"strings"
 	"sync"
@@ -31,8 +32,47 @@ import (
 	"verif/vlib"
 )
 
+// c06SoftTB is handed to the repository's test client: an assertion failing inside that test double (its handlers
+// run on their own goroutines) is recorded and makes the case inconclusive instead of failing the whole check.
+type c06SoftTB struct {
+	testing.TB
+	mu     sync.Mutex
+	failed bool
+	msgs   []string
+}
+
+func (s *c06SoftTB) record(msg string) {
+	s.mu.Lock()
+	s.failed = true
+	if len(s.msgs) < 5 {
+		s.msgs = append(s.msgs, c06Trunc(msg, 1500))
+	}
+	s.mu.Unlock()
+}
+func (s *c06SoftTB) Errorf(format string, a ...any) { s.record(fmt.Sprintf(format, a...)) }
+func (s *c06SoftTB) Error(a ...any)                 { s.record(fmt.Sprint(a...)) }
+func (s *c06SoftTB) Fatalf(format string, a ...any) {
+	s.record(fmt.Sprintf(format, a...))
+	runtime.Goexit()
+}
+func (s *c06SoftTB) Fatal(a ...any) { s.record(fmt.Sprint(a...)); runtime.Goexit() }
+func (s *c06SoftTB) Fail()          { s.record("Fail()") }
+func (s *c06SoftTB) FailNow()       { s.record("FailNow()"); runtime.Goexit() }
+func (s *c06SoftTB) Helper()        {}
+func (s *c06SoftTB) Failed() bool {
+	s.mu.Lock()
+	defer s.mu.Unlock()
+	return s.failed
+}
+func (s *c06SoftTB) messages() []string {
+	s.mu.Lock()
+	defer s.mu.Unlock()
+	return append([]string{}, s.msgs...)
+}
+
 type c06bEnv struct {
 	*c06Env
+	soft *c06SoftTB
 	srv  *c06Peer
 	btc  *BlipTesterClient
 	btcc *BlipTesterCollectionClient
@@ -103,7 +143,7 @@ func c06bSetup(t *testing.T, run *vlib.Run, c *c06Case) *c06bEnv {
 		e.written[id] = map[string]bool{}
 	}
 	vs := newVStore(t)
-	rt := vs.NewRestTester(t, &RestTesterConfig{GuestEnabled: false})
+	rt := vs.NewRestTester(t, &RestTesterConfig{GuestEnabled: false, DatabaseConfig: &DatabaseConfig{DbConfig: DbConfig{Name: fmt.Sprintf("c06b%d", c.Index)}}})
 	t.Cleanup(rt.Close)
 	e.srv = &c06Peer{name: "server", rt: rt, vs: vs}
 	rt.CreateUser("c06bob", []string{"*"})
@@ -157,7 +197,22 @@ func c06bSetup(t *testing.T, run *vlib.Run, c *c06Case) *c06bEnv {
 	for profile, h := range bctx.HandlerForProfile {
 		bctx.HandlerForProfile[profile] = e.wrap(profile, h)
 	}
+	// from here on the test client's own assertions go to the soft TB (registered last = restored first at cleanup)
+	e.soft = &c06SoftTB{TB: t}
+	rt.UpdateTB(e.soft)
+	t.Cleanup(func() { rt.UpdateTB(t) })
 	return e
+}
+
+// clientBroken: an assertion inside the test client failed; the case cannot be judged.
+func (e *c06bEnv) clientBroken() bool {
+	if !e.soft.Failed() {
+		return false
+	}
+	e.run.Inconclusive("blip: an assertion inside the repository's test client failed (case not judged)")
+	e.run.Count("test_client_assertion_failures", 1)
+	e.run.Note("blip case %d (%s): test client assertion: %v; trace tail: %v", e.c.Index, e.c.Proto, e.soft.messages(), c06Tail(e.traceCopy(), 8))
+	return true
 }
 
 // client-side view of one document
@@ -261,6 +316,9 @@ func (e *c06bEnv) push() (revsSent int, ok bool) {
 	e.run.Count("client_pushes", 1)
 	deadline := time.Now().Add(c06Watchdog)
 	for e.btcc.pushRunning.IsTrue() {
+		if e.soft.Failed() {
+			return 0, false
+		}
 		if time.Now().After(deadline) {
 			e.tr("WATCHDOG waiting for the client's push to end")
 			return 0, false
@@ -317,6 +375,9 @@ func (e *c06bEnv) pull() (revs int, ok bool) {
 		if done {
 			e.tr("client: pull completed (%d rev messages received); client now holds %s", revs, e.clientState())
 			return revs, true
+		}
+		if e.soft.Failed() {
+			return revs, false
 		}
 		if time.Now().After(deadline) {
 			e.tr("WATCHDOG waiting for the client's pull to complete")
@@ -400,12 +461,16 @@ func (e *c06bEnv) runCase() {
 			}
 		case "push":
 			if _, ok := e.push(); !ok {
-				e.run.Inconclusive("blip: the client's push did not end within the watchdog")
+				if !e.clientBroken() {
+					e.run.Inconclusive("blip: the client's push did not end within the watchdog")
+				}
 				return
 			}
 		case "pull":
 			if _, ok := e.pull(); !ok {
-				e.run.Inconclusive("blip: the client's pull did not complete within the watchdog")
+				if !e.clientBroken() {
+					e.run.Inconclusive("blip: the client's pull did not complete within the watchdog")
+				}
 				return
 			}
 		case "arm-mid":
@@ -423,6 +488,9 @@ func (e *c06bEnv) runCase() {
 		}
 	}
 	e.srv.midArmed.Store(false)
+	if e.clientBroken() {
+		return
+	}
 	// rounds of pull + push until one complete round changes nothing
 	type round struct {
 		Round      int      `json:"round"`
@@ -446,6 +514,9 @@ func (e *c06bEnv) runCase() {
 			pushed, ok2 = e.push()
 		}
 		e.harvest(e.srv)
+		if e.clientBroken() {
+			return
+		}
 		if !ok1 || !ok2 {
 			e.run.Inconclusive("blip: a pull / push of the final rounds did not complete within the watchdog")
 			return
